@@ -47,6 +47,9 @@ def run_with_rng(cfg, rng_factory, **extra):
 def gen_cfg(r, i):
     cfg, mode = c18.gen_cfg(r, i)
     cfg.pop("checkpoint_every", None)
+    # the same estimator in every array namespace (double precision throughout: the clauses are checked to rounding error)
+    cfg["ns"] = ("numpy", "torch", "jax")[i % 3]
+    cfg["width"] = "f64"
     if i % 4 == 3:
         cfg["like_cut"] = float(r.choice([0.0, 0.5, -1.0]))      # log L = -inf on part of the support: zero-weight particles
         cfg["target_efficiency"] = 0.25
